@@ -10,5 +10,5 @@ Extraction "model.ml"
   WireOut.name_labels WireOut.labels_beq Wire.decode
   C03Spec.chk_C03 C03Spec.iter_dlvs C03Spec.out_ok C03Spec.wf_history C03Spec.chk_C03_last C03Spec.out_last_ok C03Spec.iter_fdlvs C03Spec.q_after C03Spec.prev_after
   BrowserSpec.viol_C04 BrowserSpec.viol_C05 BrowserSpec.chk_C04 BrowserSpec.chk_C05 BrowserSpec.obs_of BrowserSpec.ptr_targets_of
-  C02Spec.dotted BrowserKnown.known_browse_expiring BrowserKnown.fresh_channels BrowserKnown.known_removal_hidden BrowserKnown.known_refresh_completes BrowserKnown.known_found_withdrawn
+  C02Spec.dotted BrowserKnown.known_browse_expiring BrowserKnown.fresh_channels BrowserKnown.known_removal_hidden BrowserKnown.known_refresh_completes BrowserKnown.known_found_withdrawn BrowserKnown.known_overlapping_series
   N.eqb N.add N.mul N.land N.div N.modulo.
